@@ -1,6 +1,6 @@
 (** Proofs about the VPK name resolution model (Fmt/VpkName.v). *)
 From Coq Require Import List NArith Bool.
-From SV Require Import Fmt.VpkDir SM.Vpk Fmt.VpkName.
+From SV Require Import Fmt.VpkDir SM.Vpk Fmt.VpkName Fmt.VpkNameSplit.
 Import ListNotations.
 Open Scope N_scope.
 
@@ -37,4 +37,29 @@ Lemma name_forms_example :
   file_parts posix_normpath (NStr [97; 47; 98; 46; 116; 120; 116]) = ([116; 120; 116], [97], [98])
   /\ file_parts posix_normpath (NTriple [97] [98] [116; 120; 116]) = ([116; 120; 116], [97], [98])
   /\ file_parts posix_normpath (NPair [97] [98; 46; 116; 120; 116]) = ([116; 120; 116], [97], [98]).
+Proof. vm_compute. repeat split; reflexivity. Qed.
+
+(** ---- the same over the split statement read from the source ---- *)
+Lemma file_parts_k_last normpath f : file_parts_k normpath (SplitLast 46) f = file_parts normpath f.
+Proof. reflexivity. Qed.
+
+(** For every split statement that cuts at the last '.', the three forms resolve alike (the 3-tuple being folder,
+    name up to the last '.', extension after it), with the same carve-out as [name_forms_agree]. *)
+Lemma name_forms_agree_k normpath k : split_kind_ok k = true -> forall s,
+  let '(h, t) := split_path s in
+  let '(n, e) := split_ext t [] in
+  file_parts_k normpath k (NPair h t) = file_parts_k normpath k (NStr s)
+  /\ ((e = [] -> rsplit1 46 n = None) -> file_parts_k normpath k (NTriple h n e) = file_parts_k normpath k (NStr s)).
+Proof.
+  intros Hk s. destruct k as [c|c]; [|discriminate]. cbn [split_kind_ok] in Hk. apply N.eqb_eq in Hk. subst c.
+  exact (name_forms_agree normpath s).
+Qed.
+
+(** Splitting at the first '.' instead (str.partition): 'a/b.c.d' is stored under extension 'c.d', its 3-tuple
+    ('a', 'b.c', 'd') under extension 'd'. *)
+Lemma name_forms_first_dot_refuted :
+  let s := [97; 47; 98; 46; 99; 46; 100] in
+  split_kind_ok (SplitFirst 46) = false
+  /\ file_parts_k posix_normpath (SplitFirst 46) (NStr s) = ([99; 46; 100], [97], [98])
+  /\ file_parts_k posix_normpath (SplitFirst 46) (NTriple [97] [98; 46; 99] [100]) = ([100], [97], [98; 46; 99]).
 Proof. vm_compute. repeat split; reflexivity. Qed.
